@@ -5,6 +5,7 @@ CONSTANTS
  Univ = {"a.py", "apps/p/__init__.py", "apps/p.py", "apps/p/h.py", "modules/m/__init__.py", "modules/m.py", "modules/m/u.py", "modules/n.py", "modules/d.py", "scripts/s.py", "scripts/sub/t.py"}
  Graph = "dense"
  Trees = "all"
+ Cfgs = {0, 1, 2, 4}
  Mask = {}
  NamedArgs = {}
  Ignore = {"orphan-loaded"}
